@@ -8,6 +8,7 @@ for d in seeded/*/; do
   name=$(basename $d)
   [ -n "$filt" ] && [[ "$name" != *$filt* ]] && continue
   prop=$(python3 -c "import json;print(json.load(open('$d/meta.json'))['property'])")
+  if python3 -c "import json,sys;sys.exit(0 if json.load(open('$d/meta.json')).get('superseded') else 1)"; then echo "$name $prop SUPERSEDED (neutralised by a later fix, see meta.json)" | tee -a $out; continue; fi
   if [ -n "$(git -C /repo status --porcelain)" ]; then echo "/repo not clean"; exit 2; fi
   if ! git -C /repo apply --check $PWD/$d/patch.diff 2>/dev/null; then echo "$name $prop DOES-NOT-APPLY" | tee -a $out; continue; fi
   git -C /repo apply $PWD/$d/patch.diff
@@ -22,4 +23,4 @@ for d in seeded/*/; do
   echo "$name $prop $res rc=$rc violations=$nv $cls" | tee -a $out
   find /verif/replays -name "$prop-*.json" -delete 2>/dev/null
 done
-echo "== $(grep -c ' caught ' $out) caught, $(grep -c ' MISSED ' $out) missed, $(grep -c ' TROUBLE ' $out) trouble, $(grep -c 'DOES-NOT-APPLY' $out) do not apply"
+echo "== $(grep -c ' caught ' $out) caught, $(grep -c ' MISSED ' $out) missed, $(grep -c ' TROUBLE ' $out) trouble, $(grep -c 'DOES-NOT-APPLY' $out) do not apply, $(grep -c ' SUPERSEDED ' $out) superseded"
